@@ -12,6 +12,8 @@ MANIFEST_ENTRY = {
     "note": "That the signed root hash is the root the share hash tree was seeded with (Retrieve._setup_download) and the order in which the gates are chained by Deferreds are not under contract. RSA and SHA-256d are assumed secure; what is proved is that no share data, version or key is used before its check passed.",
     "technique": "contract-based deductive verification (pyvc VCs + z3) with callee contracts for hash trees and uninterpreted crypto",
 }
+MANIFEST_ENTRY["text"] += ' Bounded end-to-end stand-in (run-time contract, never counted as proved): contracts/grid_mutable.py publishes 1..4 versions (plus a competing one) of SDMF/MDMF files on real StorageServers, composes the final disk state slot by slot from snapshots (newest/older/competing/deleted/bit-flipped/truncated/foreign), and checks reads, the MODE_READ survey, check/verify, repair with and without force, overwrite with failing servers and two concurrent writers against the ground truth on disk.'
+MANIFEST_ENTRY["technique"] += "; plus bounded end-to-end run-time scenario contracts on an in-process grid of the real components (stand-in, labelled bounded)"
 EXPLANATION = "Nothing from a storage server is believed before the corresponding check returned normally."
 TRUSTED = ["RSA signature verification (cryptography library)", "SHA-256d collision resistance", "IncompleteHashTree per C35"]
 ASSUMPTIONS = []
